@@ -5,6 +5,7 @@
    vm_compute in the kernel. *)
 From PSA Require Import model.Bytes model.Checksum model.Layer model.Dhcp model.Clients model.Ipdb model.IpdbCheck spec.SpecCodec spec.SpecTable spec.SpecIpdb model.Server spec.Monitors.
 From PSA Require Import gen.GoFacts model.Sanitize model.Resolv spec.SpecResolv.
+From PSA Require spec.WireHyps.
 From PSA Require Import model.Config spec.SpecConfig.
 From PSA Require Import model.Client spec.MonitorC15 spec.SpecClientHistory.
 From PSA Require Import spec.SpecClient model.ClientRx model.Tmpl.
@@ -22,6 +23,8 @@ Definition b2n (b : bool) : N := if b then 1 else 0.
 
 Definition enc_ipv4 (p : ipv4) : list (list N) :=
   [[ip_id p; ip_flags p; ip_ttl p; ip_proto p; ip_csum p; ip_src p; ip_dst p]; ip_data p].
+
+Fixpoint l_eqb (a b : list N) : bool := match a, b with [], [] => true | x :: a0, y :: b0 => (x =? y) && l_eqb a0 b0 | _, _ => false end.
 
 Definition dispatch_c13 (tag : N) (a : list (list N)) : list (list N) :=
   match tag with
@@ -47,6 +50,8 @@ Definition dispatch_c13 (tag : N) (a : list (list N)) : list (list N) :=
                    (if argn a 0 0 =? 17 then bytes_eqb (firstn 6 (ip_payload p)) (firstn 6 (arg a 1)) && bytes_eqb (skipn 8 (ip_payload p)) (skipn 8 (arg a 1))
                                              && (len (ip_payload p) =? len (arg a 1))
                     else bytes_eqb (ip_payload p) (arg a 1)))]]
+  (* round trip as observed: what the decoder returned for an assembled packet (second list; empty = refused) equals what was put in *)
+  | 1314 => [[b2n (l_eqb (arg a 0) (arg a 1) && bytes_eqb (arg a 2) (arg a 3))]]
   | _ => [[99]]
   end.
 
@@ -209,6 +214,8 @@ Definition dispatch_server (tag : N) (a : LL) : LL :=
     | 207 => [[b2n (Monitors.mon_C07 c rounds)]]
     | 208 => [[b2n (Monitors.mon_C08 c rounds)]]
     | 210 => [[b2n (Monitors.mon_C10 c rounds)]]
+    (* the premises of the wire-level theorems (proofs/WireProofs.v, WireInv.v) hold of this configuration and history *)
+    | 220 => [[b2n (WireHyps.wire_hyps c rounds)]]
     | _ => [[99]]
     end
   end.
